@@ -140,6 +140,33 @@ def finite_pt(x):
     return x is not None and all(math.isfinite(v) for v in x)
 
 
+def moved_lattice_search(R, tier):
+    """Untrusted search in the class of finding F-N3 (lattice scenes under a random rigid motion, nb.moved_lattice_pair): many
+    candidates are run through gjk_distance_jolt and gjk_nesterov_accelerated (with / without acceleration) only; every
+    candidate on which two of them differ by more than tau/2 (or one raises) and a sample of the others become ordinary
+    cases - judged like all cases, by the Coq certificates, with all operations.  The search decides WHAT is judged, never
+    the verdict."""
+    n = 2400 if tier == "quick" else 24000
+    n_sample = 40 if tier == "quick" else 400
+    cand = []
+    for _ in range(n):
+        s1, s2, meta = nb.moved_lattice_pair(R.rng)
+        cand.append(dict(c1=s1, c2=s2, meta=meta,
+                         ops=[dict(fn="jolt_full", kw=NOCLIP), dict(fn="nesterov_full", kw=dict(use_nesterov_acceleration=False)),
+                              dict(fn="nesterov_full", kw=dict(use_nesterov_acceleration=True))]))
+    res = nb.run_cases(PID, cand, tag="search", per_worker_min=40)
+    hot, rest = [], []
+    for c, rr in zip(cand, res):
+        tau = TAU_K * nw.scene_scale([c["c1"], c["c2"]])
+        ds = [max(r["d"], 0.0) for r in rr if "exc" not in r and r.get("d") is not None and math.isfinite(r["d"]) and r["d"] < 1e300]
+        differs = any("exc" in r for r in rr) or (len(ds) >= 2 and max(ds) - min(ds) > 0.5 * tau)
+        c = dict(c1=c["c1"], c2=c["c2"], meta=dict(c["meta"], search_hit=bool(differs)))
+        (hot if differs else rest).append(c)
+    step = max(1, len(rest) // n_sample)
+    R.cov["moved_lattice_search"] = dict(candidates=n, differing_by_more_than_half_tau=len(hot), sampled_others=len(rest[::step]))
+    return hot[:200] + rest[::step]
+
+
 def nesterov_loop_correspondence(R, cases, tier):
     """Model/Nesterov.v (type dispatch) + Model/NesterovLoop.v (the loop and its three simplex projections), binary64
     inside coqc, replay the support pairs gjk_nesterov_accelerated obtained, pass by pass, with and without
@@ -206,7 +233,7 @@ def nesterov_loop_correspondence(R, cases, tier):
 
 def projection_correspondence(R, tier, pid=PID):
     """unit correspondence: /repo's project_line_origin / project_triangle_origin / project_tetra_to_origin (both Nesterov
-    modules) against Model/NesterovLoop.v on generated simplices, incl. tetrahedra directed at EVERY leaf of the 43-leaf tree"""
+    modules) against Model/NesterovLoop.v on generated simplices, incl. tetrahedra directed at EVERY leaf of the 46-leaf tree (43 before the F-N3 repair)"""
     try:
         stats, mism, hits = ncorr9.compare_projections(pid, R.rng, 600 if tier == "quick" else 4000,
                                                        per_leaf=8 if tier == "quick" else 40)
@@ -257,13 +284,19 @@ def run(tier, seed, replay=None):
                 c.setdefault("meta", {})
                 cases.append(c)
         cases += gen_cases(R.rng, tier)
+        phase("proofs+generation")
+        R.cov["jit_warmup"] = nb.warm(PID)
+        phase("jit_warmup")
+        cases += moved_lattice_search(R, tier)
+        phase("moved_lattice_search")
     for c in cases:
         if not c.get("orig_only"):
             c["ops"] = ops_for(c["c1"], c["c2"])
         c["meta"]["L"] = nw.scene_scale([c["c1"], c["c2"]])
-    phase("proofs+generation")
-    R.cov["jit_warmup"] = nb.warm(PID)
-    phase("jit_warmup")
+    phase("case_setup")
+    if "jit_warmup" not in R.cov:
+        R.cov["jit_warmup"] = nb.warm(PID)
+        phase("jit_warmup")
     results = nb.run_cases(PID, cases)
     R.cov["evaluations"] = len(cases)
     phase("implementation")
